@@ -386,6 +386,88 @@ def _compat(tree, out):
     out.append(f'Definition shim_final_ret : shim_ret := {retkind(ret)}.')
 
 
+
+# ------------------------------------------------------------------ beads: the two assembly paths
+MI = 'pybaselines/misc.py'
+BEADS_PATH_SPECIFIC = {'A', 'B', 'BTB', 'temp', 'A_factor', 'A_lower', 'ab_lu', 'full_shape', 'num_diags',
+                       'offsets', 'spsolve', 'splu', 'solveh_banded', 'solve_banded', '_banded_dot_banded',
+                       '_banded_dot_vector', 'dia_object'}
+
+
+def _beads_shared(fn):
+    """Normalised text of every assignment of the function that does not mention a path-specific name
+    (the band/sparse matrices and their solvers): weights, gamma, penalty-derivative rows, cost."""
+    out = []
+    for node in ast.walk(fn):
+        if isinstance(node, (ast.Assign, ast.AugAssign)):
+            names = {n.id for n in ast.walk(node) if isinstance(n, ast.Name)}
+            if names & BEADS_PATH_SPECIFIC:
+                continue
+            out.append(_u(node))
+    return sorted(out)
+
+
+def _beads(tree, out):
+    fb, fs = _func(tree, '_banded_beads'), _func(tree, '_sparse_beads')
+    if [a.arg for a in fb.args.args] != [a.arg for a in fs.args.args]:
+        raise TranslateError('_banded_beads and _sparse_beads have different signatures')
+    if [_u(d) for d in fb.args.defaults] != [_u(d) for d in fs.args.defaults]:
+        raise TranslateError('_banded_beads and _sparse_beads have different defaults')
+    sb, ss = _beads_shared(fb), _beads_shared(fs)
+    if sb != ss:
+        only_b = [t for t in sb if t not in ss]
+        only_s = [t for t in ss if t not in sb]
+        raise TranslateError('the scalar / weighting statements of _banded_beads and _sparse_beads differ: '
+                             f'only banded: {only_b}; only sparse: {only_s}')
+    need = ['gamma[~big_x] = gamma_factor / eps_0', 'gamma[big_x] = gamma_factor / abs_x[big_x]', 'd_diags[2] += gamma',
+            'd_diags = lam_1 * d1_diags + lam_2 * d2_diags']
+    for t in need:
+        if t not in sb:
+            raise TranslateError(f'beads: expected statement `{t}` not found in both paths')
+    # the products of the banded path and their band counts / symmetric flags
+    calls = [c for c in _calls(fb, '_banded_dot_banded')]
+    desc = sorted(_u(c) for c in calls)
+    want = sorted([
+        '_banded_dot_banded(B, B, ab_lu, ab_lu, full_shape, full_shape, True)',
+        '_banded_dot_banded(A, d_diags, ab_lu, (2, 2), full_shape, full_shape)',
+        '_banded_dot_banded(_banded_dot_banded(A, d_diags, ab_lu, (2, 2), full_shape, full_shape), A, '
+        '(filter_type + 2, filter_type + 2), ab_lu, full_shape, full_shape, True)'])
+    if desc != want:
+        raise TranslateError(f'_banded_beads: banded products not in the recognised shape: {desc}')
+    if not any(_u(st) == 'ab_lu = (filter_type, filter_type)' for st in ast.walk(fb) if isinstance(st, ast.Assign)):
+        raise TranslateError('_banded_beads: ab_lu is not (filter_type, filter_type)')
+    if not any(_u(st) == 'temp[2:-2] += BTB' for st in ast.walk(fb) if isinstance(st, ast.AugAssign)):
+        raise TranslateError('_banded_beads: `temp[2:-2] += BTB` not found')
+    # dispatch in beads(): numba -> banded, otherwise sparse, same argument list
+    bd = _method(tree, '_Misc', 'beads')
+    disp = [n for n in ast.walk(bd) if isinstance(n, ast.If) and _u(n.test) == '_HAS_NUMBA']
+    if len(disp) != 1:
+        raise TranslateError('beads: `if _HAS_NUMBA` dispatch not found')
+    cb, cs = _calls(disp[0].body[0], '_banded_beads'), _calls(disp[0].orelse[0], '_sparse_beads')
+    if len(cb) != 1 or len(cs) != 1 or [_u(a) for a in cb[0].args] != [_u(a) for a in cs[0].args] \
+            or cb[0].keywords or cs[0].keywords:
+        raise TranslateError('beads: the two paths are not called with the same arguments')
+    out.append('(* misc.py beads: the statements that do not involve the band / sparse matrices are textually')
+    out.append('   identical in _banded_beads and _sparse_beads (checked by the translator, fail closed) *)')
+    out.append(f'Definition beads_shared_statements : Z := {len(sb)}.')
+
+
+# kernel loop bounds of _numba_banded_dot_banded, as normalised text
+def _beads_kernel(tree, out):
+    fn = _func(tree, '_numba_banded_dot_banded')
+    body = _body_wo_doc(fn)
+    text = [_u(st) for st in body]
+    want = ['for o_c in range(-(a_upper + b_upper), lower_bound + 1):\n'
+            '    for o_a in range(-min(a_upper, b_lower - o_c), min(a_lower, b_upper + o_c) + 1):\n'
+            '        o_b = o_c - o_a\n        row_a = a_upper + o_a\n        row_b = b_upper + o_b\n'
+            '        row_c = c_upper + o_c\n        d_a = 0\n        d_b = -o_b\n        d_c = -o_b\n'
+            '        for frame in range(max(0, -o_a, o_b), max(0, diag_length + min(0, -o_a, o_b))):\n'
+            '            c[row_c, frame + d_c] += a[row_a, frame + d_a] * b[row_b, frame + d_b]',
+            'return c']
+    if text != want:
+        raise TranslateError('_numba_banded_dot_banded: loop nest differs from the modelled one: ' + repr(text)[:400])
+    out.append('Definition beads_kernel_is_modelled : bool := true.')
+
 tree2 = [None]
 
 
@@ -404,6 +486,9 @@ def gen_c10(repo=None):
     _setup_spline(tas, out)
     _reset_diagonals(tbu, out)
     _solve(tbu, out)
+    tmi, _ = _parse(MI, repo)
+    _beads(tmi, out)
+    _beads_kernel(tmi, out)
     _compat(tco, out)
     return '\n'.join(out) + '\n'
 
